@@ -43,7 +43,8 @@ def dec_fn_ref(kind, v):
 
 
 def obligations(ctx):
-    obs = []
+    from .c18 import premise_number_from
+    obs = [premise_number_from('C10')]      # first, so that it runs alongside everything else
     ocs = (True, False) if ctx.tier == 'thorough' else (True,)
     for oc in ocs:
         tag = 'dbg' if oc else 'rel'
